@@ -208,6 +208,10 @@ def run(ctx):
             d = 3
             params = [f"p{i}" for i in range(d)]
             bounds = {"p0": (0.0, 2 * math.pi), "p1": (-1.0, 3.0), "p2": (-np.inf, np.inf)}
+            # the dictionary is written in an arbitrary order: bounds belong to parameters by NAME
+            order = list(bounds)
+            ctx.rng.shuffle(order)
+            bounds = {k: bounds[k] for k in order}
             try:
                 T = CompositeTransform(parameters=params, periodic_parameters=["p0"] if per else None, prior_bounds=bounds,
                                        bounded_to_unbounded=bnd, bounded_transform=bt, affine_transform=aff, xp=xp, dtype=dt)
@@ -217,8 +221,27 @@ def run(ctx):
                 yfit = T.fit(xin)
                 y, lj = T.forward(xin)
                 xb, ljb = T.inverse(y)
-                case = {"class": "composite", "periodic": per, "bounded": bnd, "bounded_transform": bt, "affine": aff, "ns": nsname}
+                case = {"class": "composite", "periodic": per, "bounded": bnd, "bounded_transform": bt, "affine": aff, "ns": nsname,
+                        "prior_bounds_written_in_order": order}
                 ctx.count(json.dumps(case, sort_keys=True), True, kind=f"composite/{nsname}")
+                # each coordinate is mapped with ITS OWN bounds (independent closed form, no affine stage)
+                if not aff:
+                    yv_ = np.asarray(nsutil.to_list(y), float)
+                    want1 = X[:, 1]
+                    if bnd:
+                        u1 = (X[:, 1] + 1.0) / 4.0
+                        if bt == "logit":
+                            want1 = np.log(u1) - np.log1p(-u1)
+                        else:
+                            from scipy.special import erfinv
+                            want1 = np.sqrt(2.0) * erfinv(2 * u1 - 1)
+                    want0 = X[:, 0] if not per else np.mod(X[:, 0], 2 * math.pi)
+                    if bnd and not per:
+                        u0 = X[:, 0] / (2 * math.pi)
+                        want0 = (np.log(u0) - np.log1p(-u0)) if bt == "logit" else np.sqrt(2.0) * __import__("scipy.special", fromlist=["erfinv"]).erfinv(2 * u0 - 1)
+                    if not (close(yv_[:, 1], want1, 1e-7, 1e-7) and close(yv_[:, 2], X[:, 2], 1e-9, 1e-9) and close(yv_[:, 0], want0, 1e-7, 1e-7)):
+                        ctx.violation("composite-coordinate-map", "a coordinate is not mapped by the transform of its own bounds "
+                                      f"(p1 -> {yv_[0, 1]} expected {want1[0]}; p0 -> {yv_[0, 0]} expected {want0[0]}; p2 -> {yv_[0, 2]} expected {X[0, 2]})", dict(case, x=X[0].tolist()))
                 if not close(nsutil.to_list(xb), X, 1e-8, 1e-8):
                     ctx.violation("roundtrip:composite", "inverse(forward(x)) != x", case)
                 if not close(nsutil.to_list(ljb), -np.asarray(nsutil.to_list(lj), float), 1e-9, 1e-8):
